@@ -7,7 +7,7 @@ from props import c02
 
 ID = "C03"
 LEVEL = "proof"
-THEOREMS = ["C03_assignment_rereads_partial", "C03_structure_sequences_are_its_strands", "C03_duplex_bonds", "C03_duplex_forces_complement", "C03_binding_equal", "C03_binding_complement", "C03_signal_lines", "C03_component_document_equivalent", "C03_system_document_equivalent", "C03_hypotheses_sound", "C03_system_nonvacuous"]
+THEOREMS = ["C03_assignment_rereads_partial", "C03_structure_sequences_are_its_strands", "C03_duplex_bonds", "C03_duplex_forces_complement", "C03_binding_equal", "C03_binding_complement", "C03_signal_lines", "C03_component_document_equivalent", "C03_system_document_equivalent", "C03_hypotheses_sound", "C03_system_nonvacuous", "C03_compiled_document_equivalent", "C03_loaded_systems_well_formed"]
 TRUSTED = c02.TRUSTED + ["harness reader of .des files and the partition oracle (parity union-find over sequence nucleotides on both sides, compared on the structures' positions)"]
 ASSUMPTIONS = c02.ASSUMPTIONS
 
